@@ -46,7 +46,10 @@ func schedCase(rng *rand.Rand, w *Writer, suite string, kind string, canonical i
 	pop := fmt.Sprintf("%x:%x:%s:%s:%s:%x:%d:%d:%d:%d", uint64(d.eui.ToInt64()), d.addr, hx(d.appkey), hx(d.nwk), hx(d.app),
 		uint64(d.appeui.ToInt64()), d.fup0, d.fdn0, b01(d.relaxed), int(state))
 	// queued downstream data, so that answers carry a payload
-	if kind != "join-copies" && rng.Intn(2) == 0 {
+	if canonical == 3 && kind != "join-copies" {
+		// exactly one queued message: the first handler's answer carries it, the second handler has nothing to send
+		h.submit(d, uint8(1+rng.Intn(200)), false, randBytes(rng, 1+rng.Intn(20)))
+	} else if kind != "join-copies" && rng.Intn(2) == 0 {
 		h.submit(d, uint8(1+rng.Intn(200)), rng.Intn(2) == 0, randBytes(rng, 1+rng.Intn(20)))
 		if rng.Intn(2) == 0 {
 			h.submit(d, uint8(1+rng.Intn(200)), rng.Intn(2) == 0, randBytes(rng, 1+rng.Intn(20)))
@@ -56,7 +59,7 @@ func schedCase(rng *rand.Rand, w *Writer, suite string, kind string, canonical i
 	var f1, f2 []byte
 	switch kind {
 	case "copies":
-		f1 = h.validUplink(d, rng.Intn(2) == 0, rng.Intn(3) == 0, d.fcnt, 1+rng.Intn(200), randBytes(rng, rng.Intn(20)), nil)
+		f1 = h.validUplink(d, canonical != 3 && rng.Intn(2) == 0, rng.Intn(3) == 0, d.fcnt, 1+rng.Intn(200), randBytes(rng, rng.Intn(20)), nil)
 		f2 = f1
 	case "consecutive":
 		confirmed := rng.Intn(2) == 0
@@ -85,7 +88,7 @@ func schedCase(rng *rand.Rand, w *Writer, suite string, kind string, canonical i
 	p2, e2 := mk(f2, h.gws[1], 2000000)
 	var sched []bool
 	switch canonical {
-	case 1: // both handlers read the device before either writes; then the first runs on, then the second
+	case 1, 3: // both handlers read the device before either writes; then the first runs on, then the second
 		sched = []bool{false, true}
 	case 2: // second frame first, alternating through the counter writes; the second frame then runs on and the first finishes last
 		sched = []bool{true, false, true, false}
@@ -140,8 +143,8 @@ func schedSuite(suite string, kinds []string, quickN, thoroughN int) suiteFunc {
 		for i := 0; i < n; i++ {
 			kind := kinds[i%len(kinds)]
 			c := 0
-			if i < 4*len(kinds) {
-				c = 1 + (i/len(kinds))%2
+			if i < 6*len(kinds) {
+				c = 1 + (i/len(kinds))%3
 			}
 			schedCase(rng, w, suite, kind, c)
 		}
